@@ -178,8 +178,22 @@ struct SIMDVector<float,simd_abi::avx512> {
     FASTOR_INLINE SIMDVector<float,simd_abi::avx512> reverse() {
         return _mm512_reverse_ps(value);
     }
-    // FASTOR_INLINE float minimum() {return _mm512_hmin_ps(value);}
-    // FASTOR_INLINE float maximum() {return _mm512_hmax_ps(value);}
+    FASTOR_INLINE float minimum() {
+        FASTOR_ARCH_ALIGN float vals[Size];
+        _mm512_store_ps(vals, value);
+        float quan = vals[0];
+        for (FASTOR_INDEX i=1; i<Size; ++i)
+            if (vals[i]<quan) quan = vals[i];
+        return quan;
+    }
+    FASTOR_INLINE float maximum() {
+        FASTOR_ARCH_ALIGN float vals[Size];
+        _mm512_store_ps(vals, value);
+        float quan = vals[0];
+        for (FASTOR_INDEX i=1; i<Size; ++i)
+            if (vals[i]>quan) quan = vals[i];
+        return quan;
+    }
 
     FASTOR_INLINE float dot(const SIMDVector<float,simd_abi::avx512> &other) {
         __m512 res =  _mm512_mul_ps(value,other.value);
